@@ -7,6 +7,7 @@ import (
 	"fmt"
 	"runtime/debug"
 	"sort"
+	"strings"
 
 	"github.com/hashicorp/hcl/v2"
 	"github.com/zclconf/go-cty/cty"
@@ -123,6 +124,30 @@ func condBranchError(n *lib.Node, concScope evalgen.Scope) bool {
 	return false
 }
 
+// condUnselectedTypeDiffers: the branch that the concrete run does not select evaluates without error in both
+// runs, to the dynamic pseudo-type (an unknown of unknown type) in the abstract run and to a concrete type in
+// the concrete one.
+func condUnselectedTypeDiffers(n *lib.Node, absScope, concScope evalgen.Scope) bool {
+	cv, ok := evalgen.EvalNode(n.Kids[0], concScope)
+	if !ok || cv.IsNull() || !cv.IsKnown() {
+		return false
+	}
+	cu, _ := cv.Unmark()
+	if cu.Type() != cty.Bool {
+		return false
+	}
+	other := n.Kids[2]
+	if cu.False() {
+		other = n.Kids[1]
+	}
+	av, ok1 := evalgen.EvalNode(other, absScope)
+	ov, ok2 := evalgen.EvalNode(other, concScope)
+	if !ok1 || !ok2 {
+		return false
+	}
+	return !av.Type().Equals(ov.Type())
+}
+
 // reportUnsound minimises the failing expression (same abstraction, same instantiation) and records it.
 func reportUnsound(cx *lib.Ctx, c *evalgen.Case, absVals, concVals map[string]cty.Value, why string) {
 	concScope := overlay(c.Scope, concVals)
@@ -163,6 +188,29 @@ func reportUnsound(cx *lib.Ctx, c *evalgen.Case, absVals, concVals map[string]ct
 			}
 			if k.K == "cond" && condBranchError(k, concScope) {
 				key += ":operand:cond:unselected-branch-error"
+				break
+			}
+		}
+	}
+	if min != nil && !strings.Contains(key, "unselected-branch-error") {
+		// a conditional's result type is the unification of the types of *both* results; when the result that
+		// is not selected is unknown of unknown type in the abstract run and has a concrete type in the
+		// concrete run, the selected result is converted differently in the two runs
+		var all []*lib.Node
+		var walk func(n *lib.Node)
+		walk = func(n *lib.Node) {
+			all = append(all, n)
+			for _, k := range evalgen.SubExprs(n) {
+				walk(k)
+			}
+		}
+		walk(min)
+		for _, k := range all {
+			for k.K == "paren" && len(k.Kids) == 1 {
+				k = k.Kids[0]
+			}
+			if k.K == "cond" && len(k.Kids) == 3 && condUnselectedTypeDiffers(k, overlay(c.Scope, absVals), concScope) {
+				key += ":cond:unselected-branch-type-depends-on-unknown"
 				break
 			}
 		}
